@@ -133,7 +133,8 @@ class ContractFile:
             p = p[: -len("/mod.rs")]
         elif p.endswith(".rs"):
             p = p[:-3]
-        parts = [x for x in p.split("/") if x and x != "main"]
+        parts = [("r#" + x if x in ("move", "type", "match", "mod", "use", "fn", "impl", "loop", "ref", "box") else x)
+                 for x in p.split("/") if x and x != "main"]
         return "::".join(parts + ["verif_kani_" + self.tag])
 
 
@@ -336,6 +337,32 @@ def expand_items(text, root, record):
     return ITEM_RE.sub(repl, text)
 
 
+CLOSURE_RE = re.compile(r"^[ \t]*//@@[ \t]*closure[ \t]*:[ \t]*(\S+)[ \t]*::[ \t]*(.*?)[ \t]*::[ \t]*(.*?)[ \t]*=>[ \t]*(.*)$", re.M)
+
+
+def expand_closures(text, root, record):
+    """//@@ closure: <relpath> :: <locator of enclosing fn> :: <literal closure head |...|> => <new fn signature>
+    is replaced by `<new fn signature> { <verbatim closure body> }` (the body is the brace-matched block after the head)."""
+
+    def repl(m):
+        rel, locator, head, sig = m.group(1), m.group(2), m.group(3), m.group(4)
+        item = extract_item(rel, locator, root)
+        k = item.find(head)
+        if k < 0:
+            raise LookupError("anchor lost: closure head %r not found in %s" % (head, locator))
+        mask = strip_comments_mask(item)
+        b0 = mask.find("{", k + len(head))
+        if b0 < 0 or mask[k + len(head):b0].strip():
+            raise LookupError("anchor lost: closure %r in %s has no block body" % (head, locator))
+        b1 = match_brace(mask, b0)
+        body = item[b0:b1 + 1]
+        record.append({"source": ("src/" + rel) if not rel.startswith("src/") else rel, "item": locator + " / closure " + head,
+                       "sha256_of_source_span": sha256(body), "renamed_to": sig, "substitutions": []})
+        return sig + " " + body
+
+    return CLOSURE_RE.sub(repl, text)
+
+
 def expand_bodies(text, root, record):
     """//@@ body: <relpath> :: <locator> => <newname> [pub] [subst:a=>b,...]
     is replaced by the verbatim text of the function with only its name changed."""
@@ -362,6 +389,7 @@ def expand_bodies(text, root, record):
         return prefix + new
 
     text = expand_items(text, root, record)
+    text = expand_closures(text, root, record)
     text = re.sub(r"^[ \t]*//@@stubs-tables[ \t]*$", TABLE_STUBS, text, flags=re.M)
     text = re.sub(r"^[ \t]*//@@stubs-indicator[ \t]*$", INDICATOR_STUBS, text, flags=re.M)
     return BODY_RE.sub(repl, text)
@@ -370,7 +398,7 @@ def expand_bodies(text, root, record):
 # ----------------------------------------------------------------------------------------------
 # staging for Kani
 # ----------------------------------------------------------------------------------------------
-def stage_kani(scratch, cfiles, extra_tests=None):
+def stage_kani(scratch, cfiles, extra_tests=None, nocover=False):
     stage = scratch / "stage"
     if stage.exists():
         shutil.rmtree(stage)
@@ -395,9 +423,14 @@ def stage_kani(scratch, cfiles, extra_tests=None):
         orig = (REPO / "src" / module).read_bytes()
         tail = ""
         if module == "main.rs" and sup:
-            tail += "\n#[cfg(kani)]\nmod verif_support;\n"
+            tail += ("\n#[cfg(kani)]\n#[macro_export]\nmacro_rules! verif_nocover { ($($t:tt)*) => {}; }\n"
+                     "#[cfg(kani)]\nmod verif_support;\n")
         for cf in cfs:
             body = expand_bodies(cf.text, REPO, record["bodies"])
+            if nocover:
+                # second pass after a refutation: Kani prints one concrete-playback test per harness and prefers a
+                # satisfied cover; compile the covers out so that the test it prints is the failing assertion's
+                body = body.replace("kani::cover!(", "crate::verif_nocover!(")
             extra = ""
             if extra_tests and cf.path.name in extra_tests:
                 extra = "\n" + extra_tests[cf.path.name] + "\n"
@@ -998,6 +1031,17 @@ def cmd_check(args):
         vt.start()
         if kani_obs:
             run_kani(kani_obs, scratch, results, stage_record)
+            need = [o for o in kani_obs if results.get(o.id, {}).get("state") == "refuted" and not results[o.id].get("playback")]
+            if need:
+                log("  re-running %d refuted obligation(s) with covers compiled out to obtain the counterexample of the failing assertion" % len(need))
+                r2, rec2 = {}, {}
+                scratch2 = scratch / "pb"
+                scratch2.mkdir(exist_ok=True)
+                run_kani(need, scratch2, r2, rec2, nocover=True)
+                for o in need:
+                    pb = r2.get(o.id, {}).get("playback")
+                    if pb:
+                        results[o.id]["playback"] = pb
         vt.join()
         rc = report(prop, tier, seed, sel, results, stage_record, verus_record, cfiles, units, t_start)
     finally:
@@ -1012,7 +1056,7 @@ def cmd_check(args):
     return rc
 
 
-def run_kani(kani_obs, scratch, results, stage_record, extra_tests=None, playback_only=None):
+def run_kani(kani_obs, scratch, results, stage_record, extra_tests=None, playback_only=None, nocover=False):
     used_files = []
     for o in kani_obs:
         if o.cfile not in used_files:
@@ -1029,7 +1073,7 @@ def run_kani(kani_obs, scratch, results, stage_record, extra_tests=None, playbac
                         used_files.append(allf[nm])
                         changed = True
     try:
-        stage, rec = stage_kani(scratch, used_files, extra_tests)
+        stage, rec = stage_kani(scratch, used_files, extra_tests, nocover=nocover)
         stage_record.update(rec)
     except LookupError as e:
         for o in kani_obs:
